@@ -21,7 +21,7 @@ META = {
             "random sub-bases (through the ESR_VERIF hook) up to the stated complexity; line counts of all per-function files agree. "
             "",
     "note": "Bounded: complexities and bases listed in evidence.coverage.bounded. Oracle: /verif/harness/oracle.py (need-counter validity, itertools enumeration), independent of the code under test.",
-    "technique": "contract-based deductive verification of check_tree (AST->VC->SMT, ghost stack) + bounded stand-in (exhaustive enumeration against an independent oracle)",
+    "technique": "contract-based deductive verification of check_tree, get_allowed_shapes and regions of shape_to_functions / generate_equations (AST->VC->SMT, ghost stack, lemmas by induction) + the bridge lemma to unary-binary trees proved in Lean 4 (kernel re-check on every run) + bounded stand-in (exhaustive enumeration against an independent oracle)",
 }
 CHECKER = "./bin/check C01"
 
